@@ -44,7 +44,9 @@ ASSUMPTIONS = [
     "anchors are named and no contour consists of a single named move point (GLIF 1 cannot tell the two apart)",
     "new kerning-group names chosen by ufoLib's reader do not collide (no numeric suffixes; their order would depend on "
     "Python's string hashing)",
-    "no layer is created, renamed or deleted between opening and saving (C01/C06); top-level parts count as loaded",
+    "top-level parts count as loaded; a layer is renamed to a name no other layer has and the default layer is not "
+    "deleted (defcon accepts both and leaves a layer set that is none); no layer is called public.default unless it is "
+    "the default layer (Font.save refuses such a font by an assertion before it does anything)",
     "info values are valid for format 3 and convert to formats 2/1 without change of value (integers, strings, the "
     "enumerations ufoLib maps one to one)",
     "a feature header's opening brace is not followed on the same line by another feature header (nested feature "
@@ -463,6 +465,91 @@ def gen_edit(rng, mem_spec):
     return ["ginsert", ln, gn, g]
 
 
+LAYER_OPS = ("lnew", "ldel", "lrename", "lorder", "ldefault", "lcolor", "llib")
+LAYER_POOL = list(fg.LAYER_NAMES) + ["sketches", "bg2", "L9", "mask"]
+
+
+def layer_op_ok(spec, op):
+    """a layer operation inside the domain: defcon accepts it AND leaves a layer set that still is one (a rename goes
+    to a name no other layer has, the default layer is not deleted) that Font.save will not refuse (a layer called
+    public.default that is not the default layer trips the sanity check at the top of Font.save)"""
+    names = [l["name"] for l in spec["layers"]]
+    k = op[0]
+    if k == "lnew":
+        return op[1] not in names and op[1] != "public.default"
+    if k == "ldel":
+        return op[1] in names and op[1] != spec["default"]
+    if k == "lrename":
+        return op[1] in names and op[2] not in names and (op[2] != "public.default" or op[1] == spec["default"])
+    if k == "lorder":
+        return sorted(op[1]) == sorted(names)
+    if k == "ldefault":
+        return op[1] in names and ("public.default" not in names or op[1] == "public.default")
+    if k in ("lcolor", "llib"):
+        return op[1] in names
+    raise ValueError(op)
+
+
+def _new_glyph_op(rng, spec, ln):
+    gn = rng.choice(fg.GLYPH_NAMES)
+    g = fg.gen_glyph(rng, gn, spec["images"])
+    for j, a in enumerate(g["anchors"]):
+        a[2] = a[2] or "an%d" % j
+    return ["ginsert", ln, gn, g]
+
+
+def gen_layer_ops(rng, spec, kind=None):
+    """one operation on the layer set in memory, with the operations that make it meaningful (glyphs for a new layer,
+    the re-creation after a deletion, the rename a new default layer needs); `spec` is the content at that point"""
+    names = [l["name"] for l in spec["layers"]]
+    others = [n for n in names if n != spec["default"]]
+    free = [n for n in LAYER_POOL if n not in names]
+    kind = kind or rng.choice(["rename", "rename", "new", "delete", "default", "default", "order", "info", "rename-default"])
+    ops = []
+    if kind == "rename" and others and free:
+        ops.append(["lrename", rng.choice(others), rng.choice(free)])
+    elif kind == "rename-default" and free:
+        ops.append(["lrename", spec["default"], rng.choice(free)])
+    elif kind == "new" and free:
+        n = rng.choice(free)
+        ops.append(["lnew", n])
+        for _ in range(rng.randint(0, 3)):
+            ops.append(_new_glyph_op(rng, spec, n))
+    elif kind == "delete" and others:
+        n = rng.choice(others)
+        ops.append(["ldel", n])
+        if rng.random() < 0.6:
+            # ... and a layer of that name again: nothing of the deleted one may come back with it
+            ops.append(["lnew", n])
+            for _ in range(rng.randint(0, 2)):
+                ops.append(_new_glyph_op(rng, spec, n))
+    elif kind == "default":
+        if not others and free:
+            n = rng.choice(free)
+            free = [x for x in free if x != n]
+            ops.append(["lnew", n])
+            for _ in range(rng.randint(1, 2)):
+                ops.append(_new_glyph_op(rng, spec, n))
+            others = [n]
+        if others:
+            if "public.default" in names and free:
+                ops.append(["lrename", "public.default", rng.choice(free)])
+            if "public.default" not in names or free:
+                ops.append(["ldefault", rng.choice(others)])
+    elif kind == "order" and len(names) > 1:
+        order = list(names)
+        while order == names:
+            rng.shuffle(order)
+        ops.append(["lorder", order])
+    elif kind == "info":
+        ln = rng.choice(names)
+        if rng.random() < 0.5:
+            ops.append(["lcolor", ln, rng.choice(fg.COLORS + [None])])
+        else:
+            ops.append(["llib", ln, rng.choice(["com.l.a", "com.l.b"]), rng.choice([1, "v", None])])
+    return ops
+
+
 POISONS = ["groups-overlap", "kerning-value", "lib-key", "glyph-lib"]
 # one fault at the final replace (see MoveFaults); the model's name of each
 REPLACE_FAULTS = {"aside-raises": "aside-raises", "movein-raises": "movein-raises", "movein-torn-0": "movein-torn",
@@ -522,8 +609,18 @@ def gen_font_case(rng, tier, i):
         batch.insert(rng.randint(0, len(batch)), ["savefault", t, "inplace", cur["st"], cur["st"], rng.choice(sorted(REPLACE_FAULTS))])
         ops.extend(batch)
 
-    k = (i // 4) % 10
+    def layer_ops(n, kinds=None):
+        """n operations on the layer set (each with its companions), applied to the shadow as they are drawn"""
+        for j in range(n):
+            for op in gen_layer_ops(rng, sh.s, kinds[j % len(kinds)] if kinds else None):
+                if op[0] in LAYER_OPS and not layer_op_ok(sh.s, op):
+                    continue
+                if sh.do(copy.deepcopy(op)):
+                    ops.append(op)
+
+    k = (i // 4) % 14
     others = [t for t in (1, 2, 3) if t != s]
+    below = [t for t in (1, 2) if t != s] or [1, 2]
     if k == 0:                      # plain conversion, nothing read before
         save(rng.choice(others))
     elif k == 1:                    # edit, then convert
@@ -589,6 +686,58 @@ def gen_font_case(rng, tier, i):
         # (as above: the save that follows rewrites everything)
         t = rng.choice([1, 2, 3])
         save(t, None if t != cur["fmt"] else rng.choice(["new", "over"]))
+    elif k == 10:                   # the layer set is changed in memory on a partly read font, then the font is saved to a
+        layer_ops(rng.randint(1, 3))    # format that stores one layer; then everything is read; then back to format 3
+        if rng.random() < 0.3:
+            edits(1)
+        save(rng.choice(below + below + [3]))
+        if rng.random() < 0.6:
+            ops.append(["dump"])
+        if rng.random() < 0.6:
+            save(3, rng.choice(["new", "new", "inplace", "over"]))
+    elif k == 11:                   # ... saved below format 3, the layer set changed AGAIN (another default layer among the
+        layer_ops(rng.randint(0, 2))    # changes), saved in place in that format, and back to format 3
+        if s < 3 and rng.random() < 0.5:
+            # a UFO 1/2 as it was opened (partly read), its layer renamed / joined by others, saved in place as it is
+            layer_ops(1, [rng.choice(["rename-default", "new", "default"])])
+            t = save(s, "inplace")
+        else:
+            t = save(rng.choice(below))
+        layer_ops(rng.randint(1, 3), rng.choice([["default"], ["default", "rename"], ["new", "default"], ["delete", "default"],
+                                                   ["rename-default", "order"], None]))
+        if rng.random() < 0.3:
+            edits(1)
+        save(t, "inplace")
+        if rng.random() < 0.5:
+            ops.append(["dump"])
+        if rng.random() < 0.6:
+            save(3, rng.choice(["new", "inplace"]))
+    elif k == 12:                   # every layer but the default one gets another name and the order is reversed - nothing of
+        for l in list(sh.s["layers"]):  # them need have been read -, a new layer with glyphs joins, then down
+            if l["name"] != sh.s["default"]:
+                layer_ops(1, ["rename"])
+        layer_ops(rng.randint(0, 2), ["order", "new"])
+        if rng.random() < 0.4:
+            layer_ops(1, ["rename-default"])
+        if s < 3 and rng.random() < 0.4:
+            save(s, "inplace")
+            edits(1)
+        save(rng.choice(below), rng.choice(["inplace", "new", "over"]))
+        if rng.random() < 0.5:
+            save(3, "new")
+    elif k == 13:                   # layer operations, edits, reads and saves of every kind mixed
+        for _ in range(rng.randint(3, 6 if tier == "quick" else 10)):
+            r = rng.random()
+            if r < 0.4:
+                layer_ops(1)
+            elif r < 0.6:
+                edits(1)
+            elif r < 0.68:
+                ops.append(["dump"])
+            else:
+                save()
+        if not any(o[0] == "save" for o in ops):
+            save()
     else:                           # op soup
         for _ in range(rng.randint(2, 5 if tier == "quick" else 9)):
             r = rng.random()
@@ -639,7 +788,7 @@ def gen_pure_case(rng, tier):
 
 
 def generate(rng, tier):
-    n_font, n_pure = (440, 250) if tier == "quick" else (6000, 4000)
+    n_font, n_pure = (616, 250) if tier == "quick" else (8400, 4000)
     for i in range(n_font):
         yield gen_font_case(rng, tier, i)
     for _ in range(n_pure):
@@ -890,6 +1039,26 @@ def _source_disk(case):
 PART_OPS = ("feat", "kern", "group", "lib", "info")
 
 
+def _layer_line(spec_after, op):
+    """a layer operation as the driver reads it; spec_after: the content once it is done"""
+    k = op[0]
+    if k == "lrename":
+        return [Atom("layerop"), Atom("rename"), op[1], op[2]]
+    if k == "lnew":
+        return [Atom("layerop"), Atom("new"), op[1]]
+    if k == "ldel":
+        return [Atom("layerop"), Atom("delete"), op[1]]
+    if k == "ldefault":
+        return [Atom("layerop"), Atom("default"), op[1]]
+    if k == "lorder":
+        return [Atom("layerop"), Atom("order"), list(op[1])]
+    # colour / lib: the layer's info as one value
+    for n, _, li in abs_layers(fg.expected_dump(spec_after)["layers"]):
+        if n == op[1]:
+            return [Atom("layerop"), Atom("info"), n, li]
+    raise ValueError(op)
+
+
 def model_lines(case):
     if case.get("kind") == "pure":
         lines = []
@@ -923,6 +1092,12 @@ def model_lines(case):
                 lines.append([Atom("noop")])
                 continue
             lines.append([Atom("gdel"), op[1], op[2]])
+        elif k in LAYER_OPS:
+            if not layer_op_ok(sh.s, op):
+                lines.append([Atom("noop")])        # outside the domain (only in shrunk histories): skipped on both sides
+                continue
+            sh.do(copy.deepcopy(op))
+            lines.append(_layer_line(sh.s, op))
         elif k == "dump":
             lines.append([Atom("observe")])
         elif k == "savefail":
@@ -1288,6 +1463,7 @@ def run_font(case, tmpd):
     run.preread()
     outs.append(Atom("ok"))
     conversions = 0
+    layer_ops_since_save = []
     watcher = Watcher(font) if case.get("observer") else None
     if watcher:
         stats["observer_cases"] = 1
@@ -1333,6 +1509,26 @@ def run_font(case, tmpd):
             outs.append(Atom("ok"))       # whether the edit was accepted is judged by the oracle below, not by the model
             if (status == "ok") != bool(ok_expected) and not viol:
                 V("op-outcome", k, step=i, op=op, observed=status, detail=extra)
+            continue
+        if k in LAYER_OPS:
+            if not layer_op_ok(sh.s, op):
+                outs.append(Atom("ok"))
+                stats["layerop.skipped"] = stats.get("layerop.skipped", 0) + 1
+                continue
+            sh.do(copy.deepcopy(op))
+            lazy_before = sum(1 for ln in font.layers.layerOrder for n in font.layers[ln].keys() if n not in font.layers[ln]._glyphs)
+            try:
+                status, extra = run.impl.do(copy.deepcopy(op))
+            except Exception as e:
+                status, extra = "err:" + type(e).__name__, str(e)[:200]
+            if status == "ok":
+                outs.append([Atom("ok"), list(font.layers.layerOrder), font.layers.defaultLayer.name])
+            else:
+                outs.append([Atom("err"), Atom("layerop")])
+                if not viol:
+                    V("op-outcome", k, step=i, op=op, observed=status, detail=extra)
+            stats["layerop." + ("partly-read" if lazy_before else "all-read")] = stats.get("layerop." + ("partly-read" if lazy_before else "all-read"), 0) + 1
+            layer_ops_since_save.append(k)
             continue
         if k == "dump":
             try:
@@ -1448,6 +1644,12 @@ def run_font(case, tmpd):
             continue
         if fmt_before != t or mode != "inplace":
             conversions += 1
+        if layer_ops_since_save:
+            key = "save.after-layer-ops.%s" % ("down" if t < 3 and fmt_before > t else "below3-same" if t < 3 and fmt_before == t else "1>2" if t < 3 else "to3" if fmt_before < 3 else "3>3")
+            stats[key] = stats.get(key, 0) + 1
+            for lk in set(layer_ops_since_save):
+                stats["save.after.%s.%s" % (lk, "below3" if t < 3 else "3")] = stats.get("save.after.%s.%s" % (lk, "below3" if t < 3 else "3"), 0) + 1
+            del layer_ops_since_save[:]
         check_watcher(i, op)
         # --- the UFO that was written, read back raw
         try:
